@@ -393,13 +393,13 @@ func c12Wiring(e *Env, s *Sched) {
 	}
 	last := outs[len(outs)-1]
 	arg := last.Common().Args[0]
-	r.Check(includesField(e, arg, "logWriter", 0), "setupExec: SetStdout writer includes the log writer on every path", e.InstrPos(last),
+	r.Check(includesField(e, arg, e.nodeSinkFields()["log"], 0), "setupExec: SetStdout writer includes the log writer on every path", e.InstrPos(last),
 		"on some path the step's stdout does not reach its log file")
 	// includes stdoutWriter when configured: some MultiWriter dominated by stdoutWriter != nil flows in
 	tr := &ir.Tracer{C: e.C, Through: map[string]bool{"io.MultiWriter": true}}
 	hasStdoutFile := false
 	for _, l := range tr.Trace(arg) {
-		if l.Kind == "field" && l.Name == "stdoutWriter" {
+		if l.Kind == "field" && l.Name == e.nodeSinkFields()["stdout"] {
 			hasStdoutFile = true
 		}
 	}
@@ -409,7 +409,7 @@ func c12Wiring(e *Env, s *Sched) {
 	// before the call (a variable assigned under `stderrWriter != nil`): every way the
 	// argument gets its value is looked at with that way's conditions
 	errs := invoke("SetStderr")
-	isErrW := func(v ssa.Value) bool { return e.IsFieldRead(v, nil, "stderrWriter") }
+	isErrW := func(v ssa.Value) bool { return e.IsFieldRead(v, nil, e.nodeSinkFields()["stderr"]) }
 	type valAlt struct {
 		lits []ir.NLit
 		v    ssa.Value
@@ -444,12 +444,12 @@ func c12Wiring(e *Env, s *Sched) {
 			}
 			if HasNilCmp(a.lits, isErrW, true) {
 				nCfg++
-				if !includesField(e, a.v, "stderrWriter", 0) {
+				if !includesField(e, a.v, e.nodeSinkFields()["stderr"], 0) {
 					okCfg = false
 				}
 			} else {
 				nDef++
-				if !includesField(e, a.v, "logWriter", 0) {
+				if !includesField(e, a.v, e.nodeSinkFields()["log"], 0) {
 					okDefault = false
 				}
 			}
